@@ -374,6 +374,7 @@ def r5(ctx):
     if not oks:
         raise AnchorMissing("Ok results of canonicalize_uri_path")
     bad = []
+    verbatim = []
     for ob, i, s in oks:
         absolute = special = False
         for a, sx, c, truth in guard_conditions(b, ob):
@@ -390,6 +391,14 @@ def r5(ctx):
                     special = True
         if not (absolute or special):
             bad.append(ob)
+        elif not special:
+            # ... and its value is rendered from the resolved component list (join, or "/" when only the root is left):
+            # a shortcut that hands back the input / a slice of it skips dot-segment resolution for whatever it admits
+            vs = b.slice_op(s["rv"]["ops"][0])
+            if not (vs.has_call(r"slice::<impl \[T\]>::join$|Vec::<T, A>::join$|concat$") or vs.find_calls(r"String::push_str$|String::push$")) and "/" not in vs.const_values():
+                verbatim.append(ob)
+    if verbatim:
+        yield VIOL("C09-R5", "canonicalize_uri_path/result-bypasses-resolution", "%d Ok result(s) are not rendered from the resolved component list (the input, or a piece of it, is returned as it is): a path the shortcut admits is not canonicalised" % len(verbatim), where=b.span_of_block(verbatim[0]))
     if bad:
         yield VIOL("C09-R5", "canonicalize_uri_path/absolute-test-skipped", "%d of %d Ok results are reached without the `starts_with('/')` test having succeeded (and are not the empty / \"/\" case): a relative path is canonicalised in that mode instead of being refused" % (len(bad), len(oks)), where=b.span_of_block(bad[0]))
     else:
